@@ -116,11 +116,15 @@ def body(chk):
         bname = 'throw' if exceptions else 'exit'
         for scalar in ('double', 'long double'):
             ex = w.ex
-            # (a) every solution-dependent API function before any masa_init
-            for fn, api, sig in api_all(w, scalar):
+            # (a) every solution-dependent API function before any masa_init of THIS scalar type: with both registries empty, and with a
+            #     solution initialised in the other scalar type's registry (which may not count as initialisation)
+            other = 'long double' if scalar == 'double' else 'double'
+            st_other = w.base.clone()
+            S.api_init(w, st_other, other, 'other_handle', 'euler_3d')
+            st_other.events, st_other.writes = [], []
+            for fn, api, sig, st, where in [(f_, a_, s_, w.base, '') for f_, a_, s_ in api_all(w, scalar)] + [(f_, a_, s_, st_other, ':other-registry-initialised') for f_, a_, s_ in api_all(w, scalar)]:
                 if api in NOT_SOLUTION_DEPENDENT:
                     continue
-                st = w.base
 
                 def thunk(ex, fn=fn, sig=sig):
                     return ex.call(fn, harness_args(w, ex, sig, scalar))
@@ -141,9 +145,12 @@ def body(chk):
                 else:
                     a = ','.join('"x"' if q.strip() == 'std::string' else ('1' if q.strip() == 'int' else ('&iv' if q.strip() == 'int*' else '(Scalar)0.5')) for q in split_sig(sig))
                     call = '%s<Scalar>(%s);' % (api, a)
-                chk.paths_clean('uninitialised[%s]<%s>:%s(%s)' % (bname, scalar, api, sig), bad, key='uninitialised:%s(%s)' % (api, sig), family='before-init',
-                                sample=dict(obligation='%s before masa_init' % api, paths=len(paths), why=why),
-                                replay=fatal_replay(chk, scalar, exceptions, ['int iv=0;', call] if call else None, 'calling %s before masa_init: %s' % (api, why)))
+                if where and call is None and sig.strip() == 'int*':
+                    call = 'masa_get_dimension<Scalar>(&iv);' if api == 'masa_get_dimension' else None
+                pre = ['int iv=0;'] + (['masa_init<%s>("other_handle","euler_3d");' % rp_cxx(other)] if where else [])
+                chk.paths_clean('uninitialised[%s]<%s>:%s(%s)%s' % (bname, scalar, api, sig, where), bad, key='uninitialised:%s(%s)' % (api, sig), family='before-init',
+                                sample=dict(obligation='%s before masa_init%s' % (api, where), paths=len(paths), why=why),
+                                replay=fatal_replay(chk, scalar, exceptions, pre + [call] if call else None, 'calling %s before masa_init%s: %s' % (api, where, why)))
             # (b) selecting an unknown handle / (c) initialising an unknown solution name, from a K-entry registry
             st, handles, objs = R.build(w, scalar, ['euler_2d', 'heateq_1d_unsteady_var'][:K], symbolic=True, select=0)
             p0, e0 = R.snapshot(w, st, scalar)
@@ -246,6 +253,11 @@ def after_failure_probes(w, ex, p, scalar, exceptions, fn, handles, objs, mkargs
             if p1 != objs[i]:
                 return 'select of the registered handle %s after the caught failure selects another instance' % h.p
     return ''
+
+
+def rp_cxx(scalar):
+    import replay as rp
+    return rp.SCALAR_CXX[scalar]
 
 
 def fatal_replay(chk, scalar, exceptions, lines, why, after=None, expect_after=None):
